@@ -1,15 +1,18 @@
 //! l21v-ext: harnesses that need only the public API of the Layout21 crates.
 //! Built by `cargo kani` (harness wrappers) and by plain cargo (native replay of counterexamples).
 #![allow(clippy::all)]
+#![cfg_attr(kani, feature(allocator_api))]
 include!("../../common/src.rs");
 include!("../../common/libm.rs");
 
+pub mod c12;
+pub mod c13;
 pub mod c15;
 
 /// native replay entry: run harness `name` on recorded values against the real build
 #[cfg(not(kani))]
 pub fn replay(name: &str, vals: Vec<Vec<u8>>) -> ReplayOut {
-    let tables: &[fn(&str, &mut VecSrc) -> bool] = &[c15::k::dispatch];
+    let tables: &[fn(&str, &mut VecSrc) -> bool] = &[c12::k::dispatch, c13::k::dispatch, c15::k::dispatch];
     for d in tables {
         let out = run_native(name, vals.clone(), *d);
         if out.0 {
